@@ -106,13 +106,22 @@ def rand_side(rng, labels, max_order):
     return side
 
 
-def side_text(side):
+def side_text(side, rng=None):
+    """text of a reaction side; with `rng`, a repeated species is sometimes written as separate terms
+    ('A + A', 'A + 2 B + B') instead of one term with a coefficient — the same reaction"""
     if not side:
         return ""
     out = []
     for lab in sorted(set(side), key=side.index):
         c = side.count(lab)
-        out.append(lab if c == 1 else "%d %s" % (c, lab))
+        if rng is not None and c >= 2 and rng.random() < 0.5:
+            first = rng.randint(1, c - 1)
+            for part in (first, c - first):
+                out.append(lab if part == 1 else "%d %s" % (part, lab))
+        else:
+            out.append(lab if c == 1 else "%d %s" % (c, lab))
+    if rng is not None and len(out) > 2 and rng.random() < 0.5:
+        rng.shuffle(out)
     return " + ".join(out)
 
 
@@ -141,7 +150,7 @@ def rand_network(rng, ns=None, nr=None, nenv=None, max_order=3, chem_p=0.15, dif
                 break
         else:
             continue
-        r = {"eq": "%s -> %s" % (side_text(lhs), side_text(rhs)), "k+": env_value(rng, envs, kch)}
+        r = {"eq": "%s -> %s" % (side_text(lhs, rng), side_text(rhs, rng)), "k+": env_value(rng, envs, kch)}
         if rng.random() < 0.6:
             r["k-"] = env_value(rng, envs, kch)
         else:
@@ -382,9 +391,20 @@ def child_run_seq(case, lib):
         e2 = eng or LibRDEngine(lib, option=prev.get("option", option), requires_molecules=(prev.get("option", option) != "euler"))
         system = build_system(prev["net"], prev["space"])
         system.state = list(prev["state"])
+        if prev.get("fail") == "raise":
+            # a call that must raise (empty t_sample), on the engine object that is used again afterwards
+            import numpy as np
+            try:
+                st.simulate(system, t_sample=np.arange(0, 0, 0.1), time_step=case["dt"], engine=e2, rng_seed=prev["seed"])
+            except Exception:
+                pass
+            continue
         script = st.RDScript(system, t_sample=[0], time_step=case["dt"], t_max=1e9, sampling_policy="on_iteration",
                              rng_seed=prev["seed"])
         e2.setup(script)
+        if prev.get("fail") == "abandon":
+            # a set-up that is never run nor finalised (interrupted by the caller); the object is set up again below
+            continue
         for _ in range(prev.get("iterations", 5)):
             if not e2.iterate():
                 break
@@ -408,6 +428,35 @@ def value_in_env(v, env):
             return Fraction(v["default"])
         return Fraction(0)
     return Fraction(v)
+
+
+def parse_side(txt, labels):
+    """coefficient vector of one side of an equation text ('2 A + B', 'A + A', ''): repeated terms add up"""
+    v = [0] * len(labels)
+    for term in txt.split("+"):
+        term = term.strip()
+        if not term:
+            continue
+        parts = term.split()
+        coef, lab = (int(parts[0]), parts[1]) if len(parts) == 2 else (1, parts[0])
+        v[labels.index(lab)] += coef
+    return v
+
+
+def own_stoichiometry(net):
+    """the oracle's own reading of the equation texts: substrate coefficients and net changes, species-major,
+    forward then reverse direction of every reaction -> (sub, sto, number of directions)"""
+    labels = [s["label"] for s in net["species"]]
+    subs, stos = [], []
+    for r in net["reactions"]:
+        l, rr = r["eq"].split("->")
+        a, b = parse_side(l, labels), parse_side(rr, labels)
+        subs += [a, b]
+        stos += [[y - x for x, y in zip(a, b)], [x - y for x, y in zip(a, b)]]
+    nr = len(subs)
+    sub = [subs[r][s] for s in range(len(labels)) for r in range(nr)]
+    sto = [stos[r][s] for s in range(len(labels)) for r in range(nr)]
+    return sub, sto, nr
 
 
 def expected_tables(net, units=None):
